@@ -1,23 +1,23 @@
 CONSTANTS
   M = 16
-  MaxPackets = 5
+  MaxPackets = 3
   MinPackets = 1
   FrameSizes = {1, 2, 3}
-  SameTs = FALSE
-  MaxLates = {2, 3}
+  SameTs = TRUE
+  MaxLates = {2}
   Delays = {0}
-  StartBacks = {2, 9}
+  StartBacks = {2}
   MarkerModes = {TRUE, FALSE}
   Windows = {3}
   Modes = {"all"}
   MaxLoss = 1
   MaxDup = 1
-  MaxPopCalls = 2
-  Algo = "ring"
+  MaxPopCalls = 3
+  Algo = "abstract"
   Impl = "asis"
   Sampling = FALSE
 INIT Init
 NEXT Next
 VIEW mcview
-INVARIANTS ModelContiguousSameTs ModelStartsAtHead ModelComplete EmitDone
+INVARIANTS ModelContiguousSameTs ModelStartsAtHead ModelInOrder ModelNoPacketTwice
 CHECK_DEADLOCK FALSE
